@@ -33,6 +33,7 @@ func runC17(c *Ctx) {
 	c.rule("refusal-reported", "the watch loop hands a non-nil result of ReportNewValue (a value a wrapping WatchArgs refused) to ReportError", 1)
 	c.rule("initial-check", "the watch loop looks at the file once when it starts, without waiting for an event (a change between the initial read and the setup of the watches raises none)", 1)
 	c.rule("filter-current-path", "the names the file-event filter compares an event's name with include the symlink-resolved config path as last re-resolved by the loop (and its directory), not a copy taken before the loop: after a symlink swap the file the config now resolves to is rewritten in place under that new name", 1)
+	c.rule("own-dir-real-name", "the config's own directory is recognised under its symlink-resolved name too (it may be reached through a symlinked directory; both names share one watch): the old directory is un-watched only when it also differs from EvalSymlinks of the own directory, and the event filter accepts the config's name inside that resolved directory", 2)
 	c.rule("release", "the loop goroutine defers watcher.Close, WG.Done and signal.Stop at entry, returns on <-ctx.Done(), and WG.Add(1) precedes `go`", 4)
 
 	w := c.W
@@ -133,6 +134,7 @@ func runC17(c *Ctx) {
 	}
 
 	c17FilterCurrentPath(c, loop, "filter-current-path")
+	c17OwnDirRealName(c, loop, upd, "own-dir-real-name")
 
 	// ---- checksum-after-decode --------------------------------------------------------
 	rec := w.fn("sources/file", "Source.lastHMACNew")
@@ -789,4 +791,139 @@ func c17FilterCurrentPath(c *Ctx, loop *ssa.Function, rule string) {
 	}
 	c.check(n > 0 && direct && viaDir, rule, name+"#filter", resolved.Pos(), "the event filter reads the re-resolved config path the loop maintains, and its directory",
 		"no comparison of the event's name reads the config path as re-resolved by the loop (or its directory): the filter keeps a copy taken before the loop, so after a symlink swap events for the file the config now resolves to are dropped as unrelated and an in-place rewrite of it is never picked up")
+}
+
+// isRealNameOf: v is the symlink-resolved form of a value satisfying base: the first result of
+// filepath.EvalSymlinks(base), possibly falling back to the unresolved value when that fails, directly or through a
+// one-parameter helper of the repository that does just that.
+func isRealNameOf(w *World, v ssa.Value, base func(ssa.Value) bool, depth int) bool {
+	if depth > 3 {
+		return false
+	}
+	switch x := v.(type) {
+	case *ssa.Extract:
+		if call, ok := x.Tuple.(*ssa.Call); ok && x.Index == 0 && calleeFullName(call) == "path/filepath.EvalSymlinks" {
+			return base(call.Call.Args[0])
+		}
+	case *ssa.Phi:
+		real := false
+		for _, e := range x.Edges {
+			switch {
+			case isRealNameOf(w, e, base, depth+1):
+				real = true
+			case base(e):
+			default:
+				return false
+			}
+		}
+		return real
+	case *ssa.Call:
+		h := staticCallee(x)
+		if h == nil || len(h.Blocks) == 0 || !w.inRepo(h) || len(h.Params) != 1 || len(x.Call.Args) != 1 || !base(x.Call.Args[0]) {
+			return false
+		}
+		isParam := func(y ssa.Value) bool { return y == ssa.Value(h.Params[0]) }
+		real := false
+		for _, r := range returnsOf(h) {
+			rv := retVals(r)
+			if len(rv) != 1 {
+				return false
+			}
+			switch {
+			case isRealNameOf(w, rv[0], isParam, depth+1):
+				real = true
+			case isParam(rv[0]):
+			default:
+				return false
+			}
+		}
+		return real
+	}
+	return false
+}
+
+// c17OwnDirRealName (D39): see the rule text.
+func c17OwnDirRealName(c *Ctx, loop, upd *ssa.Function, rule string) {
+	w := c.W
+	// (a) updateDirWatches: Remove(old) is reached only where old also differs from the resolved own directory
+	var rem *ssa.Call
+	for _, i := range allInstrs(upd) {
+		if ci, ok := i.(*ssa.Call); ok && calleeFullName(ci) == "(*github.com/fsnotify/fsnotify.Watcher).Remove" {
+			rem = ci
+		}
+	}
+	if rem == nil {
+		c.ok(rule, relName(upd)+"#remove-guard", upd.Pos(), "no directory watch is ever removed")
+	} else {
+		okG := false
+		old := rem.Call.Args[1]
+		for _, ec := range condsDominating(rem.Block()) {
+			b, ok := ec.Cond.(*ssa.BinOp)
+			if !ok || (b.Op != token.EQL && b.Op != token.NEQ) || ec.Val != (b.Op == token.NEQ) {
+				continue
+			}
+			var other ssa.Value
+			switch {
+			case b.X == old:
+				other = b.Y
+			case b.Y == old:
+				other = b.X
+			default:
+				continue
+			}
+			isOwn := func(y ssa.Value) bool {
+				p, ok := y.(*ssa.Parameter)
+				return ok && p.Parent() == upd && p != old
+			}
+			if isRealNameOf(w, other, isOwn, 0) {
+				okG = true
+			}
+		}
+		c.check(okG, rule, relName(upd)+"#remove-guard", rem.Pos(), "the old directory is un-watched only when it differs from the symlink-resolved name of the config's own directory as well",
+			"the old resolved directory is un-watched although it may be the config's own directory under its symlink-resolved name (the config directory is reached through a symlinked directory): both names share one watch, so the own directory's watch is dropped and a later rename over the config path is never seen")
+	}
+	// (b) the event filter accepts <resolved own directory>/<base name of the config path>
+	isOwnDir := func(y ssa.Value) bool {
+		call, ok := y.(*ssa.Call)
+		if !ok || calleeFullName(call) != "path/filepath.Dir" {
+			return false
+		}
+		p, ok := call.Call.Args[0].(*ssa.Parameter)
+		return ok && p.Parent() == loop
+	}
+	okF := false
+	for _, i := range allInstrs(loop) {
+		bo, ok := i.(*ssa.BinOp)
+		if !ok || (bo.Op != token.EQL && bo.Op != token.NEQ) {
+			continue
+		}
+		var other ssa.Value
+		switch {
+		case strings.HasSuffix(canon(bo.X), ".Name"):
+			other = bo.Y
+		case strings.HasSuffix(canon(bo.Y), ".Name"):
+			other = bo.X
+		default:
+			continue
+		}
+		join, ok := other.(*ssa.Call)
+		if !ok || calleeFullName(join) != "path/filepath.Join" || len(join.Call.Args) != 1 {
+			continue
+		}
+		els, ok := sliceElems(join.Call.Args[0], 0)
+		if !ok || len(els) != 2 {
+			continue
+		}
+		baseOK := false
+		if bc, ok := els[1].V.(*ssa.Call); ok && calleeFullName(bc) == "path/filepath.Base" {
+			if p, ok := bc.Call.Args[0].(*ssa.Parameter); ok && p.Parent() == loop {
+				baseOK = true
+			}
+		}
+		if baseOK && isRealNameOf(w, els[0].V, isOwnDir, 0) {
+			okF = true
+		}
+	}
+	c.check(okF, rule, relName(loop)+"#filter", loop.Pos(), "the event filter accepts the config's name inside the symlink-resolved own directory",
+		"no comparison of the event's name accepts <symlink-resolved own directory>/<config base name>: when the config directory is reached through a symlinked directory, events for the config path carry the directory's other name once the resolved path points elsewhere, and are dropped as unrelated")
 }
